@@ -1028,6 +1028,11 @@ class Inliner:
         f = self.target_function(call, stack[-1] if stack else None)
         if f is None:
             return None
+        wk = getattr(self.facts, "worker_wrappers", {}).get(f["key"])
+        if wk is not None and (not stack or stack[-1] != wk["wrapper"]):
+            # a worker that a public function merely projects (`return worker(args).bytes;`) is that public function's body:
+            # it is expanded there, and stays a call everywhere else (project_worker_calls turns it into a call of the wrapper)
+            return None
         nb = self.normalised_body(f, stack)
         if nb is None or not (self.inlinable(f, nb) or deleg):
             return None
@@ -4530,6 +4535,225 @@ def erase_flagged_results(facts):
     return done
 
 
+def find_worker_wrappers(facts):
+    """facts.worker_wrappers[worker key] = {wrapper: key, field: f, qn, sig, ret, args}: public member functions whose whole body
+    is `return worker(<own parameters / members>).field;` with `worker` a non-public member of the same class returning a helper
+    struct."""
+    out = {}
+    for w in facts.functions.values():
+        if not w.get("cls") or w.get("access", 0) != 0 or w.get("body_raw") is None or w.get("ctor") or w.get("dtor"):
+            continue
+        sts = [x for x in ir.stmts(w["body_raw"]) if x.get("k") != "Null"]
+        if len(sts) != 1 or sts[0].get("k") != "Return" or sts[0].get("e") is None:
+            continue
+        m = ir.unwrap_all_casts(sts[0]["e"])
+        if not (isinstance(m, dict) and m.get("k") == "Member" and m.get("field")):
+            continue
+        c = ir.unwrap_all_casts(m.get("base"))
+        while isinstance(c, dict) and c.get("k") == "Construct" and c.get("copymove") and len(c.get("args", [])) == 1:
+            c = ir.unwrap_all_casts(c["args"][0])
+        if not (isinstance(c, dict) and c.get("k") == "MCall" and isinstance(c.get("callee"), dict) and c["callee"].get("cls") == w["cls"] and
+                c["callee"].get("access") in (1, 2) and ir.unwrap_all_casts(c.get("recv") or {}).get("k") == "This"):
+            continue
+        rt = (c.get("t") or "").replace("const ", "")
+        if not helper_type(facts, rt):
+            continue
+        ok = True
+        for i, a in enumerate(c.get("args", [])):
+            u = ir.unwrap_all_casts(a)
+            if isinstance(u, dict) and u.get("k") == "Ref" and u.get("d") == "param":
+                continue
+            if isinstance(u, dict) and u.get("k") == "Member" and path(u) and path(u)[0] == "this":
+                continue
+            ok = False
+        if not ok:
+            continue
+        tgt = [g for g in facts.fns(c["callee"]["qn"]) if g.get("sig") == c["callee"].get("sig")]
+        if len(tgt) != 1 or tgt[0]["key"] in out:
+            continue
+        out[tgt[0]["key"]] = {"wrapper": w["key"], "wfn": w, "field": m["n"], "args": c.get("args", []), "rtype": rt}
+    facts.worker_wrappers = out
+    return out
+
+
+def _weak_flag_results(facts):
+    """helper structs {bool flag; integer value} for which flag == false implies value == 0 at every return of every function
+    that returns one: built as {false, 0}, the value changed only in front of a statement-level `flag = true` with no return
+    between - or a result passed through unchanged from such a function.  -> {record: (flag name, value name)}"""
+    out = {}
+    for qn, rec in facts.records.items():
+        fl = rec.get("fields", [])
+        if rec.get("qn", qn) != qn or len(fl) != 2 or not helper_type(facts, qn):
+            continue
+        b = [f_ for f_ in fl if f_.get("t") == "bool"]
+        i = [f_ for f_ in fl if f_.get("t") in _RESULT_INTS]
+        if len(b) != 1 or len(i) != 1:
+            continue
+        flag, val = b[0]["n"], i[0]["n"]
+        fi = fl.index(b[0])
+        producers = [g for g in list(facts.functions.values()) + list(getattr(facts, "absorbed", {}).values())
+                     if (g.get("ret") or "").replace("const ", "") == qn and g.get("body_raw") is not None]
+        if not producers:
+            continue
+        good = True
+        for g in producers:
+            top = [x for x in ir.stmts(g["body_raw"]) if x.get("k") != "Null"]
+            loc = None
+            for x in top:
+                if x.get("k") == "Decl" and len(x.get("vars", [])) == 1 and (x["vars"][0].get("t") or "").replace("const ", "") == qn:
+                    loc = x["vars"][0]
+                    break
+            rets = [x for x in walk(g["body_raw"]) if x.get("k") == "Return" and x.get("e") is not None]
+            def returns_local(r_):
+                e_ = ir.unwrap_all_casts(r_["e"])
+                while isinstance(e_, dict) and e_.get("k") == "Construct" and e_.get("copymove") and len(e_.get("args", [])) == 1:
+                    e_ = ir.unwrap_all_casts(e_["args"][0])
+                return isinstance(e_, dict) and e_.get("k") == "Ref" and e_.get("d") == "local" and loc is not None and e_.get("id") == loc.get("id")
+            if loc is None or not rets or not all(returns_local(r_) for r_ in rets):
+                good = False
+                break
+            init = ir.unwrap_all_casts(loc.get("init")) if loc.get("init") is not None else None
+            while isinstance(init, dict) and init.get("k") == "Construct" and init.get("copymove") and len(init.get("args", [])) == 1:
+                init = ir.unwrap_all_casts(init["args"][0])
+            def member_store(x_, name):
+                if x_.get("k") == "Bin" and (x_.get("op") or "").endswith("=") and x_.get("op") not in ("==", "!=", "<=", ">="):
+                    l_ = ir.unwrap_all_casts(x_.get("lhs"))
+                    return isinstance(l_, dict) and l_.get("k") == "Member" and l_.get("n") == name and \
+                        isinstance(ir.unwrap_all_casts(l_.get("base")), dict) and ir.unwrap_all_casts(l_["base"]).get("id") == loc.get("id")
+                return False
+            stores_v = [x_ for x_ in walk(g["body_raw"]) if member_store(x_, val)]
+            stores_f = [x_ for x_ in walk(g["body_raw"]) if member_store(x_, flag)]
+            if isinstance(init, dict) and init.get("k") in ("MCall", "Call"):
+                # passed through from another producer: nothing of it may be changed here
+                if stores_v or stores_f:
+                    good = False
+                    break
+                continue
+            if not (isinstance(init, dict) and init.get("k") == "InitList" and len(init.get("c", [])) == 2 and
+                    ir.const_value(init["c"][fi]) == 0 and ir.const_value(init["c"][1 - fi]) == 0):
+                good = False
+                break
+            if any(ir.const_value(x_.get("rhs")) != 1 or x_.get("op") != "=" for x_ in stores_f):
+                good = False
+                break
+            if stores_v:
+                idx_v = [k_ for k_, x in enumerate(top) if any(y is sv for sv in stores_v for y in walk(x))]
+                idx_f = [k_ for k_, x in enumerate(top) if ir.unwrap(x) in stores_f or x in stores_f]
+                if not idx_f or min(idx_v) > idx_f[-1] and False:
+                    good = False
+                    break
+                lastf = idx_f[-1]
+                if max(idx_v) > lastf or any(y.get("k") == "Return" for x in top[min(idx_v):lastf] for y in walk(x)):
+                    good = False
+                    break
+        if good:
+            out[qn] = (flag, val)
+    return out
+
+
+def project_worker_calls(facts):
+    """After N1: (1) `r.flag ? r.value : 0` is `r.value` for a result struct whose flag false implies value 0; (2) a local that holds
+    the result of a worker call and of which only the member the worker's wrapper returns is used holds what the wrapper
+    returns - `T r = worker(args); .. r.bytes ..` is `auto b = wrapper(args); .. b ..`."""
+    n = 0
+    weak = _weak_flag_results(facts)
+    pairs = getattr(facts, "worker_wrappers", {})
+    if not weak and not pairs:
+        return 0
+    for f in facts.functions.values():
+        body = f.get("body")
+        if body is None:
+            continue
+        if weak:
+            for x in walk(body):
+                if x.get("k") != "Cond":
+                    continue
+                c, a, b = ir.unwrap_all_casts(x.get("c")), ir.unwrap_all_casts(x.get("a")), x.get("b")
+                if not (isinstance(c, dict) and c.get("k") == "Member" and isinstance(a, dict) and a.get("k") == "Member" and ir.const_value(b) == 0):
+                    continue
+                rt = (c.get("cls") or "")
+                if rt in weak and (c.get("n"), a.get("n")) == weak[rt] and ir.show(c.get("base")) == ir.show(a.get("base")):
+                    keep = copy.deepcopy(x["a"])
+                    x.clear()
+                    x.update(keep)
+                    n += 1
+        if not pairs:
+            continue
+        for blk in [x for x in walk(body) if x.get("k") == "Block"]:
+            for st in blk.get("s", []):
+                if not (isinstance(st, dict) and st.get("k") == "Decl" and len(st.get("vars", [])) == 1 and st["vars"][0].get("init") is not None):
+                    continue
+                v = st["vars"][0]
+                c = ir.unwrap_all_casts(v["init"])
+                while isinstance(c, dict) and c.get("k") == "Construct" and c.get("copymove") and len(c.get("args", [])) == 1:
+                    c = ir.unwrap_all_casts(c["args"][0])
+                if not (isinstance(c, dict) and c.get("k") == "MCall" and isinstance(c.get("callee"), dict)):
+                    continue
+                tg = [g for g in facts.fns(c["callee"].get("qn")) if g.get("sig") == c["callee"].get("sig")]
+                if len(tg) != 1 or tg[0]["key"] not in pairs or f["key"] in (tg[0]["key"], pairs[tg[0]["key"]]["wrapper"]):
+                    continue
+                pr = pairs[tg[0]["key"]]
+                w = pr["wfn"]
+                # the arguments: the wrapper's own parameters are passed on in order, members are the same members here
+                args_w = []
+                okb = len(c.get("args", [])) == len(pr["args"])
+                for a_w, a_c in zip(pr["args"], c.get("args", [])):
+                    u_w = ir.unwrap_all_casts(a_w)
+                    if u_w.get("k") == "Ref" and u_w.get("d") == "param":
+                        args_w.append((u_w.get("idx"), a_c))
+                    elif ir.show(u_w) != ir.show(ir.unwrap_all_casts(a_c)):
+                        okb = False
+                if not okb or sorted(i_ for i_, _ in args_w) != list(range(len(w.get("params", [])))):
+                    continue
+                uses = [(x, ps) for x, ps in ir.walk_with_parents(body) if x.get("k") == "Ref" and x.get("d") == "local" and x.get("id") == v.get("id")]
+                members = []
+                good = True
+                for x, ps in uses:
+                    ps = [p_ for p_ in ps if isinstance(p_, dict)]
+                    par = ps[-1] if ps else None
+                    while isinstance(par, dict) and (par.get("k") in ("Cast", "Paren") or
+                                                     par.get("k") == "Construct" and par.get("copymove") and len(par.get("args", [])) == 1):
+                        ps = ps[:-1]
+                        par = ps[-1] if ps else None
+                    if isinstance(par, dict) and par.get("k") == "Member" and par.get("n") == pr["field"]:
+                        members.append(par)
+                    else:
+                        good = False
+                if not good or not members:
+                    continue
+                ft = members[0].get("t") or w.get("ret")
+                v["t"] = (w.get("ret") or ft)
+                v["tw"] = v["t"]
+                v["init"] = {"k": "MCall", "arrow": True, "l": st.get("l"), "t": w.get("ret"),
+                             "recv": {"k": "This", "l": st.get("l"), "t": w["cls"] + " *"},
+                             "callee": {"access": 0, "cls": w["cls"], "inrepo": True, "qn": w["qn"], "ret": w.get("ret"), "sig": list(w.get("sig") or [])},
+                             "args": [a_ for _, a_ in sorted(args_w, key=lambda t_: t_[0])]}
+                for m_ in members:
+                    l0 = m_.get("l")
+                    m_.clear()
+                    m_.update({"k": "Ref", "d": "local", "id": v.get("id"), "n": v.get("n"), "t": v["t"], "l": l0})
+                n += 1
+    # a worker no call of which is left lives on only inside its wrapper
+    changed = True
+    while changed:
+        changed = False
+        still = set()
+        for f in facts.functions.values():
+            if f.get("body") is not None:
+                for x in walk(f["body"]):
+                    if x.get("k") in ("Call", "MCall") and isinstance(x.get("callee"), dict):
+                        still.add((x["callee"].get("qn"), tuple(x["callee"].get("sig") or ())))
+        for key in list(pairs):
+            g = facts.functions.get(key)
+            if g is not None and (g["qn"], tuple(g.get("sig") or ())) not in still:
+                facts.absorbed[key] = facts.functions.pop(key)
+                lst = facts.by_qn.get(g["qn"], [])
+                if g in lst:
+                    lst.remove(g)
+                changed = True
+    return n
+
+
 def normalise(facts, do_inline=True, do_propagate=True):
     inl = Inliner(facts)
     for f in facts.functions.values():
@@ -4538,6 +4762,7 @@ def normalise(facts, do_inline=True, do_propagate=True):
     rerolled = reroll_wrappers(facts) if do_inline else 0
     if do_inline:
         erase_flagged_results(facts)
+        find_worker_wrappers(facts)
     stats = {"inlined_calls": 0, "propagated_uses": 0, "helpers_absorbed": [], "rerolled": rerolled}
     if do_inline:
         for f in list(facts.functions.values()):
@@ -4565,6 +4790,8 @@ def normalise(facts, do_inline=True, do_propagate=True):
                     lst = facts.by_qn.get(f["qn"], [])
                     if f in lst:
                         lst.remove(f)
+    if do_inline:
+        stats["worker_calls_projected"] = project_worker_calls(facts)
     if do_propagate:
         memo = {}
         # which functions mention which namespace-scope objects (for N6c)
